@@ -2071,6 +2071,12 @@ class Executor:
                     and isinstance(r[0][0], (State, tuple)):
                 return r
             return [(st, r)]
+        fnode = self._module_function(name)
+        if fnode is not None and prims.lookup(name) is None and \
+                self.registry.lookup_callable(name, self.cur_class) is None:
+            # an uncontracted private helper of the module under verification: its body is part
+            # of the verified text (executed, depth-limited), like a helper method
+            return self.call_function_inline(fnode, args, kwargs, st)
         real = self._import_alias(name)
         c = None
         if real is not None:
@@ -2080,6 +2086,21 @@ class Executor:
         if c is not None:
             return self.apply_contract(c, args, kwargs, st)
         raise Unsupported(f'call to {name!r} (no primitive and no contract)')
+
+    def _module_function(self, name):
+        tree = getattr(self.registry, 'current_tree', None)
+        if tree is None or '.' in name or not name.startswith('_'):
+            return None
+        for n in tree.body:
+            if isinstance(n, ast.FunctionDef) and n.name == name and not n.decorator_list:
+                return n
+        return None
+
+    def call_function_inline(self, fnode, args, kwargs, st):
+        marker = ast.Name(id='staticmethod', ctx=ast.Load())
+        fnode2 = ast.FunctionDef(name=fnode.name, args=fnode.args, body=fnode.body,
+                                 decorator_list=[marker], returns=None, type_comment=None)
+        return self.call_method_inline(fnode2, None, args, kwargs, st)
 
     def _import_alias(self, name):
         """`from photutils.x import real as name` at the top of the module under verification:
@@ -2140,20 +2161,25 @@ class Executor:
             env[k] = v
         if any(n not in env for n in names):
             raise Unsupported('helper argument missing')
+        # the caller's locals travel with the state (one clone memo per fork keeps the aliasing
+        # between the helper's arguments and the caller's variables)
+        env['__vf_caller_env'] = saved
         st.env = env
         self._inline_depth = depth + 1
         try:
             results = self.exec_block(fnode.body, st)
         finally:
             self._inline_depth = depth
+            if st.env is env:
+                st.env = saved
         outs = []
         for s2, oc in results:
             # the caller's locals are restored (arrays are shared objects, so in-place effects
             # of the helper on its arguments are kept)
-            memo_env = saved if s2 is st else None
-            if memo_env is None:
+            caller = saved if s2 is st else s2.env.get('__vf_caller_env')
+            if caller is None:
                 raise Unsupported('helper body forks')
-            s2.env = saved
+            s2.env = caller
             if oc[0] == 'raise':
                 outs.append(((s2, oc), None))
             elif oc[0] == 'return':
